@@ -1,6 +1,7 @@
 package hx
 
 import (
+	"bytes"
 	"context"
 	"fmt"
 	"math/rand"
@@ -16,6 +17,7 @@ import (
 )
 
 func init() {
+	Commands["sweepmalformed"] = cmdSweepMalformed
 	Commands["sweep"] = cmdSweep
 	sweeper.VerifSliceYield = func(dbi string) {
 		sweepMu.Lock()
@@ -467,5 +469,68 @@ func cmdSweepFree(args []string) error {
 		CloseEnv(env, dir)
 	}
 	R.Sample("free-running passes over 3 DBIs of 3500-6500 entries (runs of identical markers up to 1500 long) with a concurrent random writer")
+	return Emit(R)
+}
+
+// cmdSweepMalformed <property>: stored values that are not well-formed version-0 headers among expired markers.
+func cmdSweepMalformed(args []string) error {
+	prop := "C13"
+	if len(args) > 0 {
+		prop = args[0]
+	}
+	R := NewResult()
+	// values that are not well-formed version-0 headers (another header version, an extension count beyond the
+	// bytes present, too short) among expired markers: the pass refuses them with an error, it never takes them
+	// for markers and removes them (C14: misread values)
+	now := time.Now()
+	oldTS := uint64(now.Add(-2 * swRetention).UnixNano())
+	good := MakeRaw(oldTS, 5, 1, 0, nil)
+	otherVersion := append([]byte(nil), good...)
+	otherVersion[16] = 1
+	tooManyExt := append([]byte(nil), good...)
+	tooManyExt[22], tooManyExt[23] = 0, 9
+	for mi, bad := range [][]byte{otherVersion, tooManyExt, good[:20]} {
+		env, dir, err := TempEnv()
+		if err != nil {
+			return err
+		}
+		err = env.Update(func(txn *lmdb.Txn) error {
+			d, err := txn.OpenDBI("data", lmdb.Create)
+			if err != nil {
+				return err
+			}
+			_ = txn.Put(d, []byte("a-live"), MakeRaw(uint64(now.UnixNano()), 5, 0, 0, []byte("v")), 0)
+			_ = txn.Put(d, []byte("b-expired"), good, 0)
+			_ = txn.Put(d, []byte("c-malformed"), bad, 0)
+			return txn.Put(d, []byte("d-expired"), good, 0)
+		})
+		if err != nil {
+			return err
+		}
+		l := logrus.New()
+		l.SetLevel(logrus.PanicLevel)
+		sw := sweeper.New("default", config.Sweeper{Enabled: true, RetentionDays: swRetentionDays, LockDuration: time.Millisecond, ReleaseDuration: time.Microsecond}, env, l, true)
+		serr := sw.VerifSweepOnce(context.Background())
+		var after []byte
+		_ = env.View(func(txn *lmdb.Txn) error {
+			d, err := txn.OpenDBI("data", 0)
+			if err != nil {
+				return nil
+			}
+			v, err := txn.Get(d, []byte("c-malformed"))
+			if err == nil {
+				after = append([]byte(nil), v...)
+			}
+			return nil
+		})
+		R.Add(1, 1, 1)
+		sg := map[string]interface{}{"prop": prop, "class": "malformed-value", "kind": mi}
+		if !bytes.Equal(after, bad) {
+			R.Bad(mi, sg, "a stored value that is not a well-formed version-0 header (kind %d) was removed or altered by the sweeper pass (now %x)", mi, after)
+		} else if serr == nil {
+			R.Bad(mi, sg, "the sweeper pass met a value that is not a well-formed version-0 header (kind %d) and reported no error", mi)
+		}
+		CloseEnv(env, dir)
+	}
 	return Emit(R)
 }
